@@ -196,7 +196,7 @@ def params(audit, contests):
 # implementation side
 
 def impl(case):
-    from shangrla.core.Audit import Assertion
+    from shangrla.core.Audit import Assertion, Audit
     audit, contests, cvrs, mvrs = build(case)
     res = {"st": "ok", "params": params(audit, contests), "init": snapshot(contests), "steps": []}
     for oi, op in enumerate(case["ops"]):
@@ -217,6 +217,11 @@ def impl(case):
                     row = []
                     for asn in con.assertions.values():
                         d, u = asn.mvrs_to_data(mv, cv)
+                        if con.audit_type == Audit.AUDIT_TYPE.POLLING:
+                            # a polling assertion's data are the assorter values of the manual records, whether or
+                            # not CVRs were handed in as well (computed here without mvrs_to_data)
+                            d = np.array([asn.assorter.assort(m) for m in mv], dtype=float)
+                            u = asn.assorter.upper_bound
                         if isinstance(asn.test, StubTest):
                             calls = asn.test.calls
                             if not (len(calls) == 1 and len(calls[0][0]) == len(d)
